@@ -66,7 +66,7 @@ func gen(c *ex.Ctx) {
 	}
 	sb.WriteString("]\n\n")
 
-	for _, name := range []string{"keymap", "cursorKeysApplicationMode", "cursorKeysNormalMode", "numericKeymap", "applicationKeymap"} {
+	for _, name := range []string{"keymap", "cursorKeysApplicationMode", "cursorKeysNormalMode", "numericKeymap", "applicationKeymap", "keypadApplicationMode"} {
 		cl, ok := ex.FindVarValue(f, name).(*ast.CompositeLit)
 		if !ok {
 			c.Fail("widgets/term/key.go: %s is not a composite literal", name)
@@ -91,6 +91,31 @@ func gen(c *ex.Ctx) {
 				return
 			}
 			fmt.Fprintf(&sb, "  (%d, %s)%s\n", k, bytesLit(s), sep(i, len(cl.Elts)))
+		}
+		sb.WriteString("]\n\n")
+	}
+
+	// keypadNumericMode: keypad key ↦ the key its legend names (map[rune]rune)
+	{
+		cl, ok := ex.FindVarValue(f, "keypadNumericMode").(*ast.CompositeLit)
+		if !ok {
+			c.Fail("widgets/term/key.go: keypadNumericMode is not a composite literal")
+			return
+		}
+		sb.WriteString("/-- `keypadNumericMode`: keypad key ↦ the key it stands for in numeric keypad mode, source order. -/\ndef keypadNumericMode : List (Int × Int) := [\n")
+		for i, e := range cl.Elts {
+			kv, ok := e.(*ast.KeyValueExpr)
+			if !ok {
+				c.Fail("%s: keypadNumericMode element not key: value", c.Pos(e))
+				return
+			}
+			k, err1 := env.Eval(kv.Key, 0)
+			v, err2 := env.Eval(kv.Value, 0)
+			if err1 != nil || err2 != nil {
+				c.Fail("%s: keypadNumericMode entry not understood (%v, %v)", c.Pos(e), err1, err2)
+				return
+			}
+			fmt.Fprintf(&sb, "  (%d, %d)%s\n", k, v, sep(i, len(cl.Elts)))
 		}
 		sb.WriteString("]\n\n")
 	}
